@@ -145,6 +145,14 @@ theorem run_terminates {cfg : Cfg} (hv : Valid cfg) {sched apply : Core → Opti
     exact absurd ((pending_ne_nil_iff hv hI).1 h) (lt_irrefl _)
   exact ⟨c, hr, hp, hI.resolve, by simp [EventCore.guard, hp, hI.resolve], hI.iter, hI⟩
 
+/-- the fuel used by the compiled drivers (`fuelFor`) suffices: the model run that is compared
+    with the implementation has really terminated -/
+theorem run_terminates_driver_fuel {cfg : Cfg} (hv : Valid cfg) {sched apply : Core → Option Err}
+    (hs : ∀ c, sched c = none) (ha : ∀ c, apply c = none) :
+    ∃ c, run cfg sched apply (fuelFor cfg) (init cfg) = (c, none) ∧ guard c = false ∧ c.iter = horizon cfg := by
+  obtain ⟨c, h1, _, _, h2, h3, _⟩ := run_terminates hv hs ha (fuelFor cfg) (horizon_le_fuelFor cfg)
+  exact ⟨c, h1, h2, h3⟩
+
 /-- the state at the head of period `t` (`run` with fuel `t`) satisfies the invariant -/
 theorem inv_at_period {cfg : Cfg} (hv : Valid cfg) {sched apply : Core → Option Err}
     (hs : ∀ c, sched c = none) (ha : ∀ c, apply c = none) (t : Nat) (ht : t ≤ horizon cfg) :
